@@ -74,6 +74,13 @@ pub enum Req {
     Sign4,
     /// force close of channel 5: its holder commitment 0 is signed for broadcast
     Close5,
+    /// a second keysend (another hash)
+    KeysendB,
+    /// approval of an invoice / of a second one
+    Invoice,
+    InvoiceB,
+    /// the wall clock moves on to the next velocity bucket boundary
+    Tick,
     /// force close of channel 1 at its initial commitment (three-channel scenarios, in which
     /// channel 1 is not advanced)
     Close1,
@@ -106,6 +113,13 @@ fn wcfg() -> WorldCfg {
     let mut c = WorldCfg::default();
     c.oracle_pubkeys = vec![oracle_pub(0)];
     c
+}
+
+/// With the wall clock as a concurrent actor the exact timestamps inside the final state depend on
+/// where in a request the clock moved (a request reads it more than once); such scenarios are
+/// compared on replies and on completing at all, not on the state fingerprint.
+fn clock_moves(sc: &Scenario) -> bool {
+    sc.reqs.contains(&Req::Tick) || sc.then.iter().flatten().any(|r| *r == Req::Tick)
 }
 
 fn needs_two(sc: &Scenario) -> u8 {
@@ -234,10 +248,25 @@ fn exec(c: &Ctx, r: Req) -> String {
             let node = w.node.clone();
             tag(call(move || Ok(format!("{:?}", node.get_heartbeat().heartbeat))))
         }
-        Req::Keysend => {
+        Req::Keysend | Req::KeysendB => {
             let node = w.node.clone();
             let payee = PublicKey::from_secret_key(&secp(), &sk(201));
-            tag(call(move || node.add_keysend(payee, pay_hash(9), 30_000_000).map_err(|e| status_kind(&e))))
+            let h = if r == Req::Keysend { 9 } else { 10 };
+            tag(call(move || node.add_keysend(payee, pay_hash(h), 30_000_000).map_err(|e| status_kind(&e))))
+        }
+        Req::Invoice | Req::InvoiceB => {
+            let node = w.node.clone();
+            let h = if r == Req::Invoice { 11 } else { 12 };
+            // issued at the start time, whatever the clock says when it is presented
+            let inv = crate::nodevel::make_invoice(h, 20_000_000, START_TIME);
+            tag(call(move || node.add_invoice(inv.clone()).map_err(|e| status_kind(&e))))
+        }
+        Req::Tick => {
+            use lightning_signer::util::clock::Clock;
+            let now = w.clock.now().as_secs();
+            let next = now - now % 300 + 300;
+            w.clock.set(std::time::Duration::from_secs(next));
+            "ok:tick".to_string()
         }
         Req::CheckOnchain | Req::SignOnchain => {
             let node = w.node.clone();
@@ -393,6 +422,9 @@ pub fn scenarios(tier: Tier) -> Vec<Scenario> {
     v.push(Scenario { prep: vec![Allowlist], reqs: vec![AllowlistRemove, AllowlistB], then: vec![] });
     // a channel is used while it is being set up
     v.push(Scenario { prep: vec![], reqs: vec![Setup2, SignCp2], then: vec![] });
+    // two approvals while the wall clock crosses a velocity bucket boundary
+    v.push(Scenario { prep: vec![], reqs: vec![Keysend, KeysendB, Tick], then: vec![] });
+    v.push(Scenario { prep: vec![], reqs: vec![Invoice, InvoiceB, Tick], then: vec![] });
     // a balance query next to a thread that closes the first and then the last channel of the
     // map, while a request on the middle one is in progress (and the mirror image)
     v.push(Scenario { prep: vec![], reqs: vec![Sign4, Balance, Close1], then: vec![None, None, Some(Close5)] });
@@ -655,7 +687,7 @@ fn run_sequential_full(sc: &Scenario, order: &[usize]) -> Result<(Obs, Value), S
                 }
             }
             let snap = ctx.w.snapshot();
-            let state = fp(&snap);
+            let state = if clock_moves(&sc2) { String::new() } else { fp(&snap) };
             *out2.lock().unwrap() = Some((Obs { replies, state }, snap));
         })
     });
@@ -760,7 +792,7 @@ pub fn run_scenario(sc: &Scenario, bound: usize, wall_s: f64) -> ScenResult {
                 for h in hs {
                     h.join().unwrap();
                 }
-                let state = fp(&ctx.0.w.snapshot());
+                let state = if clock_moves(&sc2) { String::new() } else { fp(&ctx.0.w.snapshot()) };
                 let o = Obs { replies: replies.lock().unwrap().clone(), state };
                 // per-execution bookkeeping
                 let (item, pre, pts) = {
@@ -936,7 +968,7 @@ pub fn replay(v: &Value) {
                     h.join().unwrap();
                 }
                 let snap = ctx.0.w.snapshot();
-                let state = fp(&snap);
+                let state = if clock_moves(&sc2) { String::new() } else { fp(&snap) };
                 *out2.lock().unwrap() = Some((Obs { replies: replies.lock().unwrap().clone(), state }, snap));
             })
         });
@@ -1032,6 +1064,7 @@ pub fn main(tier: Tier) -> i32 {
     let mut not_started = vec![0usize; maxb + 1];
     let mut per = vec![];
     let mut multi_outcome = 0usize;
+    let mut aborted = 0usize;
     for (b, i, r) in all.into_iter() {
         let sc = &scs[i];
         match r {
@@ -1058,12 +1091,25 @@ pub fn main(tier: Tier) -> i32 {
             Err(e) if e == "not-started" => {
                 not_started[b] += 1;
             }
+            Err(e) if e.contains("panicked in task") || e.contains("non-unwinding panic") => {
+                // a request thread panicked in a way that took the whole process down (typically a
+                // panic while a poisoned lock is touched during unwinding): requests do not
+                // complete -- a violation, not a fault of the explorer
+                if b == base {
+                    aborted += 1;
+                }
+                run.violation(
+                    &format!("C20:process-abort:{}", sc.name()),
+                    &format!("scenario {} at preemption bound {}: a schedule aborted the signer process: {}", sc.name(), b, e.chars().take(300).collect::<String>()),
+                    json!({"engine": "concur", "scenario": sc, "note": "the child process aborted; rerun the scenario with VERIF_C20_ONLY to reproduce"}),
+                );
+            }
             Err(e) => machinery_failure(&e),
         }
     }
     run.assume("scheduling points are the mutex operations of the vls-core prelude (shuttle runtime); vls-core forbids unsafe code and its only lock-free shared state is fetch_add counters");
     run.assume(&format!("every schedule with <= {} preemptions of each scenario (2 concurrent requests; thorough adds triples) on a node with one advanced channel, one stub and a confirmed funding; <= {} preemptions for the scenarios listed with bound {}", base, maxb, maxb));
-    if complete[base] != idxs.len() {
+    if complete[base] + aborted != idxs.len() && complete[base] != idxs.len() {
         machinery_failure(&format!("only {} of {} scenarios were explored completely at preemption bound {} within the budget", complete[base], idxs.len(), base));
     }
     let cov = json!({
